@@ -187,11 +187,14 @@ class ErrState:
                 for a in c.args:
                     out |= self._operand(f, a, memo, visiting)
                 return frozenset(out)
-        if decl in ("std::result::Result::<T, E>::and_then",
-                    "std::result::Result::<T, E>::or_else"):
+        if decl == "std::result::Result::<T, E>::and_then":
+            # Err(e) passes through; Ok(v) -> closure(v)
             out = set(self._operand(f, c.args[0], memo, visiting))
             out |= self._closure_arg(f, c, 1)
             return frozenset(out)
+        if decl == "std::result::Result::<T, E>::or_else":
+            # Err(e) -> closure(e): only what the closure returns can be an error
+            return frozenset(self._closure_arg(f, c, 1))
         if decl in ("std::result::Result::<T, E>::map_err",
                     "std::option::Option::<T>::ok_or_else"):
             return frozenset(self._closure_arg(f, c, 1))
